@@ -1390,3 +1390,27 @@ _WW_BEND_NEW = """        if self.mating_role in [MatingMaster, MatingSlave]:
 """
 benign('C09', 'worm-wheel-bending-roles-merged', WW, _WW_BEND_OLD, _WW_BEND_NEW % '0.67*(self.driven_by.reference_diameter if is_slave else self.drives.reference_diameter)')
 mutant('C09', 'worm-wheel-bending-roles-merged-precedence-slip', WW, _WW_BEND_OLD, _WW_BEND_NEW % '0.67*self.driven_by.reference_diameter if is_slave else self.drives.reference_diameter', 'C09.bending')
+_WRAP = """def _distinct_elements(function):
+    @wraps(function)
+    def wrapper(*args, **kargs):
+        master, slave = %s
+        if master is not None and master is slave:
+            raise ValueError("Parameters 'master' and 'slave' cannot be the same gear.")
+
+        return function(*args, **kargs)
+
+    return wrapper
+
+
+@_distinct_elements
+def add_gear_mating("""
+_SAME_OLD = """    if master == slave:
+        raise ValueError(
+            "Parameters 'master' and 'slave' cannot be the same gear."
+        )
+
+"""
+multi('C10', 'same-element-check-in-a-wrapper-that-reads-keywords-only', 'mutant', [
+    (RL, "from gearpy.mechanical_objects import (", "from functools import wraps\nfrom gearpy.mechanical_objects import ("),
+    (RL, "def add_gear_mating(", _WRAP % "kargs.get('master'), kargs.get('slave')"),
+    (RL, _SAME_OLD, "")], 'C10.rejects')
